@@ -27,7 +27,7 @@ package utils
 
 // ---------------------------------------------------------------------------
 // C14: conversion helpers return exactly the content of every supported input
-//@ property C14 C04 C08 C16
+//@ property C14 C04 C08 C09 C10 C16
 //@ func NewByteReader
 //@   requires r != nil
 //@   ensures already: implies(impl(r, ByteReader), result == r)
